@@ -93,7 +93,7 @@ class C10(Prop):
         "gam_sxp_textbook_laws", "gam_sxp_code_vs_textbook", "gam_sxp_code_close", "mixture_full_laws",
         "mixture_sample_is_component_inverse", "transformed_samples", "sampler_primitive_arguments",
         "gam_sxp_inverse_laws", "mixgev_log_versions", "hxp_inverse_laws", "mixgev_code_close_everywhere", "inverse_right_and_samples",
-        "bisection_total_generic", "hxp_invcdf_total", "sxp_gam_invcdf_total_partial", "mixgev_invcdf_total", "gam_sample_generated", "mixture_log_versions", "cdf_limits_wei_gev_mixgev", "mixgev_inverse_laws")]
+        "bisection_total_generic", "hxp_invcdf_total", "sxp_gam_invcdf_total_partial", "mixgev_invcdf_total", "gam_sample_generated", "mixture_log_versions", "cdf_limits_wei_gev_mixgev", "mixgev_inverse_laws", "bisection_fuel_covers_binary64", "incomplete_gamma_series_converges")]
     claimed = True
     technique = ("Lean 4 proof about the C functions translated from the working tree on every run (clang-14 AST -> Lean, polymorphic "
                  "over a numeric class): real-analysis theorems at the R instance, the same definitions executed at Float bit-for-bit "
@@ -104,7 +104,10 @@ class C10(Prop):
                   "L1 theorems: each translated esl_<dist>_* function, as a real function with its eslSMALLX1 branch switches, equals the "
                   "textbook form within an explicit epsilon (gamma / stretched exponential: exactly up to the two special-function discrepancies, which appear as "
                   "explicit terms); out-of-support values exactly for every carrier; every sampler = the stated transformation of the primitive variate it draws; "
-                  "the bracketing+bisection inverses: bracket invariant, accuracy, termination (the repaired right bracket returns on every carrier that reaches +inf). "
+                  "the bracketing+bisection inverses: bracket invariant, accuracy, termination (the repaired right bracket returns on every carrier that reaches +inf), "
+                  "and since round 6 totality with an explicit fuel (log3 reach + log2 width/(1e-6 delta) passes, <= 2123 for any binary64-sized bracket, below the driver's 5000): "
+                  "one fuel-independent value inside the six-digit band around the textbook quantiles of p -+ (code-vs-textbook distance of the cdf); every textbook cdf "
+                  "runs from 0 to 1 (limits for Weibull, GEV, GEV mixture added); mixture log versions for every spread of the log-terms (what esl_vec_DLogSum's 500-window drops is <= K e^-500). "
                   "The translation is redone from the current source each run, so a changed function is re-proved or the obligation fails.")
     level_note = ("Trusted: Lean kernel + propext/Classical.choice/Quot.sound; clang-14's AST and the translator's operator/libm mapping "
                   "(checked, not proved, by the bit-exact Float run); L0 (binary64 rounding of the real-valued code) is supported only by the "
@@ -123,7 +126,9 @@ class C10(Prop):
     assumptions = ["NAMED special-function hypotheses that remain (stated as hypotheses of the theorems that use them, never as axioms): "
                    "InvTotal.IncGammaPWithin a eps (esl_stats_IncompleteGamma's P, hand model over R, within eps of the regularised incomplete gamma integral for all y > 0) "
                    "in sxp_gam_invcdf_total_partial; |Num.logGamma a - log Gamma a| <= eps and |Num.incGammaP/Q a y - P/Q a y| <= delta at the arguments used in "
-                   "gam_sxp_code_close; (realIncGamma a y).isSome (the algorithm converges within its 99 / 9999 iterations) in gam_laws_partial / sxp_laws_partial",
+                   "gam_sxp_code_close; (realIncGamma a y).isSome (the algorithm converges within its 99 / 9999 iterations) in gam_laws_partial / sxp_laws_partial - "
+                   "PROVED for the series branch 0 <= y <= a+1 with 0 < a <= 20 (incomplete_gamma_series_converges), still a hypothesis on the continued-fraction "
+                   "branch y > a+1 and for shapes above 20",
                    "struct parameters (ESL_HYPEREXP, ESL_MIXGEV) are Lean structures with the members the translated functions use; arrays are "
                    "lists read with getD (default 0.0) and written with List.set: theorems carry K <= length where a store matters; the scratch "
                    "vector wrk is local to one call (its contents are not carried across calls)",
